@@ -96,7 +96,7 @@ pub fn run(env: &Env, run: &Run) -> (Stats, Coverage) {
     st.sample(json!({"input": ["U+00E9", " ", " ", "b"], "expected": "Ok(\"U+00E9 b\") - interior run collapses to one space next to a 2-byte character"}));
     st.sample(json!({"input": ["U+3131"], "expected": "Err(BadCodepoint{0x1100,0,Disallowed}) from the second round's validation"}));
     let cov = Coverage {
-        rule: format!("every string of length <= {} over a 21-symbol alphabet (spaces of 1-3 bytes, letters of 1-4 bytes, characters whose NFKC form introduces spaces or needs re-validation) and of length <= {} over 8 space/length symbols, + pumped runs and ASCII block strings + every scalar value in 7 templates and next to each of its bit-16..20 aliases; oracle = RFC 8264 s.7 iteration of (non-empty -> FreeformClass -> Zs to space/trim/collapse -> NFKC -> non-empty); every accepted result is re-enforced and re-run through one reference application (fixed point); non-trivial = inputs needing at least two applications", n, n2),
+        rule: format!("every string of length <= {} over a 21-symbol alphabet (spaces of 1-3 bytes, letters of 1-4 bytes, characters whose NFKC form introduces spaces or needs re-validation) and of length <= {} over 8 space/length symbols, + pumped runs and ASCII block strings + every scalar value in 7 templates and next to each of its 16 other-plane aliases; oracle = RFC 8264 s.7 iteration of (non-empty -> FreeformClass -> Zs to space/trim/collapse -> NFKC -> non-empty); every accepted result is re-enforced and re-run through one reference application (fixed point); non-trivial = inputs needing at least two applications", n, n2),
         alphabet: json!({"general": sigma.iter().map(|c| format!("U+{:04X}", *c as u32)).collect::<Vec<_>>(), "space": sp.iter().map(|c| format!("U+{:04X}", *c as u32)).collect::<Vec<_>>()}),
         bound_completed: format!("length <= {} ({} strings) and <= {} ({} strings); sweep 1,112,064 x 7", n, tree_size(sigma.len(), n), n2, tree_size(sp.len(), n2)),
         exhaustive: false,
